@@ -45,7 +45,9 @@ pub struct KillAllCase {
     pub next: Content,
     pub writer: u8,
     pub path: u8,
-    /// every byte limit is enumerated for snapshots up to this size; stratified above
+    /// every byte limit is enumerated for snapshots up to this size; stratified above. For the two
+    /// zstd writers the decision is taken on the uncompressed size (the same in every process, about
+    /// 4x the compressed one), i.e. against 4 * all_up_to
     pub all_up_to: u16,
 }
 
@@ -63,7 +65,7 @@ pub fn kill_strategy(_t: Tier) -> impl Strategy<Value = KillCase> {
 }
 
 pub fn kill_all_strategy(t: Tier) -> impl Strategy<Value = KillAllCase> {
-    let all_up_to = t.pick(3_000u16, 24_000u16);
+    let all_up_to = t.pick(350u16, 3_000u16);
     (tiny_content_strategy(), tiny_content_strategy(), writer_path()).prop_map(move |(prev, next, (writer, path))| KillAllCase { prev, next, writer, path, all_up_to })
 }
 
@@ -110,15 +112,20 @@ pub fn child_save(args: &[String]) -> i32 {
     let Some(lim) = args.get(1).and_then(|s| serde_json::from_str::<Lim>(s).ok()) else { return 2 };
     let built = build(&job.content);
     let path = Path::new(&job.path);
-    // trial save next to the target (own directory, so its temporary file is not the target's)
-    let probe_dir = path.parent().unwrap_or(Path::new(".")).join("probe");
-    let _ = std::fs::create_dir_all(&probe_dir);
-    let probe = probe_dir.join(path.file_name().unwrap_or_default());
-    if let Err(e) = save(&built.store, job.writer, &probe) {
-        eprintln!("trial save failed: {e}");
-        return 2;
-    }
-    let s = std::fs::metadata(&probe).map(|m| m.len()).unwrap_or(0);
+    // trial save next to the target (own directory, so its temporary file is not the target's);
+    // not needed for absolute limits
+    let s = if matches!(lim, Lim::Abs(_)) {
+        0
+    } else {
+        let probe_dir = path.parent().unwrap_or(Path::new(".")).join("probe");
+        let _ = std::fs::create_dir_all(&probe_dir);
+        let probe = probe_dir.join(path.file_name().unwrap_or_default());
+        if let Err(e) = save(&built.store, job.writer, &probe) {
+            eprintln!("trial save failed: {e}");
+            return 2;
+        }
+        std::fs::metadata(&probe).map(|m| m.len()).unwrap_or(0)
+    };
     let hdr = header_len(job.writer);
     let limit = match lim {
         Lim::Abs(a) => a,
@@ -231,7 +238,8 @@ impl Env {
         }
         let status = if killed { "killed by SIGXFSZ".to_string() } else { format!("exit code {:?}", r.code) };
         let flen = std::fs::metadata(&self.path).map(|m| m.len()).unwrap_or(0);
-        let describe = || format!("{} to {:?} with RLIMIT_FSIZE={l} ({status}); previous snapshot {} bytes, new snapshot {size} bytes, file now {flen} bytes", WRITERS[self.writer as usize % 4], self.path.file_name().unwrap_or_default(), self.p_bytes.len());
+        let new_size = if size == 0 { format!("about {}", self.n_len) } else { size.to_string() };
+        let describe = || format!("{} to {:?} with RLIMIT_FSIZE={l} ({status}); previous snapshot {} bytes, new snapshot {new_size} bytes, file now {flen} bytes", WRITERS[self.writer as usize % 4], self.path.file_name().unwrap_or_default(), self.p_bytes.len());
         let loaded = match load(self.writer, &self.path) {
             Ok(s) => s,
             Err(e) => {
@@ -294,7 +302,7 @@ pub fn kill_check(c: &KillCase, ctx: &mut CaseCtx) -> Result<(), Fail> {
     if let Some(r) = env.run(&c.lim, ctx)? {
         ctx.label(if r.outcome == Outcome::New { "outcome: new snapshot" } else { "outcome: previous snapshot" });
         ctx.label(if r.killed { "child killed by SIGXFSZ" } else { "child completed" });
-        if r.killed != (r.limit < r.size) && !env.tmp_path_is_target {
+        if r.size > 0 && r.killed != (r.limit < r.size) {
             // the writers produce one file: the child dies iff the limit is below the snapshot's size
             ctx.label("kill/size relation unexpected");
         }
@@ -321,7 +329,8 @@ pub fn kill_all_check(c: &KillAllCase, ctx: &mut CaseCtx) -> Result<(), Fail> {
     // the parent knows the size only up to the process-to-process variation of the compressed form;
     // the class decisions below use the uncompressed size, which is the same in every process
     let end = env.n_len + 16;
-    let every = env.n_raw_len <= u64::from(c.all_up_to);
+    let zstd_writer = matches!(c.writer % 4, 0 | 3);
+    let every = if zstd_writer { env.n_raw_len <= 4 * u64::from(c.all_up_to) } else { env.n_len <= u64::from(c.all_up_to) };
     let limits: Vec<u64> = if every {
         ctx.label("every byte limit enumerated");
         (0..=end).collect()
